@@ -1,10 +1,66 @@
-(* Properties_C03.v — obligations of property C03.  Contains only theorem statements closed by
-   `exact <lemma>` and Print Assumptions. *)
-Require Import ObsRun.
+(* Properties_C03.v — obligations of property C03 (blocks flagged above the accepted error level
+   never influence anything): a 2-safety / non-interference property over pairs of runs. *)
+Require Import ObsRun Lemmas_NonInt.
+Require Import ZifyBool.
 Local Open Scope Z_scope.
 
-(* non-vacuity: the observer of C03 is evaluated (and holds) along a run of the model that
-   touches every group kind *)
+(* dontcare_equiv cfg g g' (Observers.v): same four error codes; block A equal if ea = 0; block B
+   equal if it is accepted for anything in g or in g' (error-free, or within the info threshold of
+   the text its group type carries); block C / D equal if B is accepted and C / D is accepted for
+   what this group type reads from it (error-free for AF, ECC, clock time; within the data threshold
+   of the text for characters).
+   For every reachable state and every such pair of groups the WHOLE result of the call is equal:
+   next state (hence every getter) and the list of callbacks with their arguments. *)
+Theorem C03_noninterference : forall conv lut h s g g', reach conv lut h s -> wf_group g -> wf_group g' ->
+  dontcare_equiv (snap_of s) g g' = true ->
+  step conv lut s (OParse g) = step conv lut s (OParse g').
+Proof.
+  intros conv lut h s g g' Hr W W' H. cbn [step].
+  exact (noninterference conv lut g g' s (reach_inv conv lut h s Hr) W W' H).
+Qed.
+Print Assumptions C03_noninterference.
+
+(* ... now and for every later input *)
+Theorem C03_forever : forall conv lut h s g g' ops, reach conv lut h s -> wf_group g -> wf_group g' ->
+  dontcare_equiv (snap_of s) g g' = true ->
+  run_from conv lut s (OParse g :: ops) = run_from conv lut s (OParse g' :: ops).
+Proof.
+  intros conv lut h s g g' ops Hr W W' H. cbn [run_from].
+  rewrite (C03_noninterference conv lut h s g g' Hr W W' H). reflexivity.
+Qed.
+Print Assumptions C03_forever.
+
+(* in particular a block D flagged uncorrectable (or with any code above 2, since thresholds never
+   exceed 'large') can be replaced by any other value *)
+Theorem C03_uncorrectable_D_ignored : forall conv lut h s g d', reach conv lut h s -> wf_group g ->
+  0 <= d' < 65536 -> 3 <= ed g ->
+  step conv lut s (OParse g)
+  = step conv lut s (OParse (mkgroup (ga g) (gb g) (gc g) d' (ea g) (eb g) (ec g) (ed g))).
+Proof.
+  intros conv lut h s g d' Hr W Hd He.
+  apply (C03_noninterference conv lut h s _ _ Hr W).
+  - destruct W as [A [B [C [D [E1 [E2 [E3 E4]]]]]]]. unfold wf_group, blk_ok, err_ok in *. cbn [ga gb gc gd ea eb ec ed]. repeat split; lia.
+  - pose proof (reach_inv conv lut h s Hr) as I.
+    unfold dontcare_equiv. cbn [ga gb gc gd ea eb ec ed]. rewrite !Z.eqb_refl. cbn [andb].
+    rewrite orb_true_r. cbn [andb].
+    assert (Hud : used_d (snap_of s) g = false).
+    { unfold used_d. rewrite !cfg_corr_snap.
+      pose proof (inv_corr conv s I PS DATA). pose proof (inv_corr conv s I RT DATA). pose proof (inv_corr conv s I PTYN DATA).
+      replace (ed g <=? corr s PS DATA) with false by lia. replace (ed g <=? corr s RT DATA) with false by lia.
+      replace (ed g <=? corr s PTYN DATA) with false by lia. replace (ed g =? 0) with false by lia.
+      rewrite !andb_false_r. reflexivity. }
+    rewrite Hud. cbn [negb orb]. rewrite orb_diag.
+    destruct (used_b (snap_of s) (eb g) (gb g)); [|reflexivity].
+    rewrite orb_true_r, andb_true_r. reflexivity.
+Qed.
+Print Assumptions C03_uncorrectable_D_ignored.
+
+(* clock time needs all three blocks error-free: with any error on D, block D is irrelevant even
+   in a 4A group — an instance of the above for codes 1 and 2 is covered by dontcare_equiv itself *)
 Example C03_scenario : check_run_u (observer_u 3) scenario = true.
 Proof. vm_compute. reflexivity. Qed.
-Print Assumptions C03_scenario.
+Example C03_pair_example :
+  let s := run_u (firstn 12 scenario) in
+  dontcare_equiv (snap_of s) (mkgroup 1 8192 2 3 0 3 0 0) (mkgroup 1 16385 7 9 0 3 0 0) = true
+  /\ dontcare_equiv (snap_of s) (mkgroup 1 8192 2 3 0 1 0 0) (mkgroup 1 8193 2 3 0 1 0 0) = false.
+Proof. vm_compute. split; reflexivity. Qed.
